@@ -6,6 +6,7 @@ straddle 2^32-1 → 0).
 -/
 import LA.Proofs.ReasmOrder
 import LA.Gen.Consts
+import LA.Proofs.StateFacts
 
 namespace LA.Reasm
 
@@ -150,3 +151,9 @@ example : WinRun (init 1 3600)
   refine ⟨⟨4294967290, ?_⟩, ⟨4294967290, ?_⟩, ⟨4294967290, ?_⟩, trivial, trivial⟩ <;> decide
 
 end LA.Reasm
+
+/-! ### the code keeps nothing between calls that the model does not have -/
+
+/-- Outside `init`, no function of the root package writes a package-level variable, takes the address of one or calls a
+sync/atomic method on one (regenerated list, see LA.Proofs.StateFacts): all state is in the object the model is given. -/
+theorem C02_state_is_in_the_object : LA.StateFacts.ofPkg "" = [] := by decide
